@@ -270,11 +270,17 @@ class Gen:
             if r < 36:
                 present = [row[0] for row in self.state]
                 ans = []
+                # check_retry_payments walks a HashMap: at most one payment per operation gets
+                # routes (= allocates session privs), so that the numbering does not depend on
+                # the iteration order; the others get "no route" answers only.
+                routed = rng.choice(present) if present and rng.chance(3, 4) else None
                 for pid in present:
-                    if rng.chance(1, 2):
-                        row = self.row(pid)
+                    row = self.row(pid)
+                    if pid == routed:
                         need = max(1, row[8] - row[6]) if row[1] == 0 else 1
                         ans.append((pid, self.answers(need, row[1] == 0 and row[9] >= 0)))
+                    elif rng.chance(1, 3):
+                        ans.append((pid, [None] * rng.choice([1, 2])))
                 return {"k": "retry", "answers": ans}
             if r < 50:
                 sp = self.pick_sp((0, 1, 2), same_life=True)
